@@ -238,6 +238,18 @@ def install(I):
             return deref(ctx, ctx.args[0])
         raise Unsupported('bitflags method %s' % meth)
 
+    # ---------------------------------------------------------------- Clone of core types (integers, bool, references, Option/Result of
+    # such, PhantomData ...): a bitwise copy of the value behind the reference. Clone impls of the crate itself have MIR and are interpreted.
+    @pat(r'^(core::clone::Clone::clone|<.* as core::clone::Clone>::clone|core::clone::impls::.*::clone)$')
+    def m_core_clone(ctx):
+        res = ctx.c.get('res') or {}
+        if res.get('local') or ctx.target in ctx.I.fn:
+            f = ctx.I.fn.get(ctx.target)
+            if f is not None:
+                return ctx.I.run_fn(f, list(ctx.args), ctx.st, {}, ctx.fr.consts)
+        v = deref(ctx, ctx.args[0])
+        return v
+
     # ---------------------------------------------------------------- integer helpers
     def checked(base):
         def f(ctx):
